@@ -1,4 +1,5 @@
 import PewProofs.Register
+import PewTheorems.C11
 
 /-! # C12 — property theorems (statements only depend on `PewModel.Register` / `PewModel.Overlap`) -/
 namespace Pew.Register
@@ -164,5 +165,149 @@ theorem shift_decode_range (a b : Nat) (ha : 0 < a) (hb : 0 < b) (l : Int)
 /-- the regression input of the fix: `a = scene[0:100]`, `b = scene[80:100]` was reported at −39 -/
 theorem shift_decode_wrong : oldDec (100 + 20 - 1) (enc (100 + 20 - 1) 80) = -39
     ∧ dec 100 (100 + 20 - 1) (enc (100 + 20 - 1) 80) = 80 := by decide
+
+/-- **swapping the arguments negates the lag** (every dimension, every lag) -/
+theorem lin_swap (sa sb : List Nat) (A B : List Nat → Rat) (l : List Int)
+    (h1 : sa.length = sb.length) (h2 : l.length = sb.length) :
+    lin sb (zext sa A) B l = lin sa (zext sb B) A (l.map (- ·)) := by
+  induction sa generalizing sb A B l with
+  | nil =>
+    cases sb with
+    | nil =>
+      cases l with
+      | nil => simp [lin, zext, inBoxI, mul_comm]
+      | cons _ _ => simp at h2
+    | cons _ _ => simp at h1
+  | cons a as ih =>
+    cases sb with
+    | nil => simp at h1
+    | cons b bs =>
+      cases l with
+      | nil => simp at h2
+      | cons l0 ls =>
+        rw [List.map_cons, lin_cons, lin_cons]
+        rw [reindex a b l0 (fun m n => lin bs (zext as (fun r => A (m :: r))) (fun r => B (n :: r)) ls)]
+        apply sumRange_congr
+        intro m _
+        split
+        · rw [ih bs _ _ ls (by simpa using h1) (by simpa using h2)]
+        · rfl
+
+
+/-- cross-correlation with the arguments swapped is the cross-correlation at the negated lag -/
+theorem xcorr_swap (a b : Img) (l : List Int) (h1 : a.shape.length = b.shape.length)
+    (h2 : l.length = b.shape.length) : xcorr a b l = xcorr b a (l.map (- ·)) :=
+  lin_swap a.shape b.shape a.get b.get l h1 h2
+
+/-- **swapping the arguments negates the estimate** (under the hypotheses of `register_argmax`) -/
+theorem swap_negates (a b : Img) (l : List Int)
+    (hpa : ∀ x ∈ a.shape, 0 < x) (hpb : ∀ x ∈ b.shape, 0 < x)
+    (hl : inLagBox a.shape b.shape l = true)
+    (huniq : ∀ l', inLagBox a.shape b.shape l' = true → l' ≠ l → xcorr a b l' < xcorr a b l) :
+    register a b = l ∧ register b a = l.map (- ·) := by
+  refine ⟨register_argmax a b l hpa hpb hl huniq, ?_⟩
+  have hlen := inLagBox_length _ _ _ hl
+  apply register_argmax b a _ hpb hpa (inLagBox_neg _ _ _ hl)
+  intro l' hl' hne
+  have e1 : xcorr b a l' = xcorr a b (l'.map (- ·)) := by
+    have := xcorr_swap a b (l'.map (- ·)) hlen (by
+      rw [List.length_map, inLagBox_len _ _ _ hl']
+      exact hlen)
+    rw [map_neg_neg] at this
+    exact this.symm
+  have e2 : xcorr b a (l.map (- ·)) = xcorr a b l :=
+    (xcorr_swap a b l hlen (inLagBox_len _ _ _ hl)).symm
+  rw [e1, e2]
+  apply huniq _ (by have := inLagBox_neg _ _ _ hl'; exact this)
+  intro e
+  apply hne
+  rw [← e, map_neg_neg]
+
+
+/-- **zero lag is a maximum of the self-correlation**, every dimension: `x[l] ≤ x[0] = Σ a²` -/
+theorem xcorr_self_le (a : Img) (l : List Int) (hl : l.length = a.shape.length) :
+    xcorr a a l ≤ xcorr a a (List.replicate a.shape.length 0) := by
+  have h := lin_le_energy a.shape a.shape a.get a.get l rfl hl
+  have e := xcorr_self_zero a.shape a.get
+  unfold xcorr
+  rw [e]
+  linarith
+
+/-- **every image registers to itself at offset zero**: zero lag is stored first, it is a maximum
+(`xcorr_self_le`) and `argmax` takes the first maximum -/
+theorem register_self (a : Img) (hpa : ∀ x ∈ a.shape, 0 < x) :
+    register a a = List.replicate a.shape.length 0 := by
+  have hpos := padShape_pos a.shape a.shape hpa hpa
+  have hlen := padShape_length a.shape a.shape rfl
+  obtain ⟨tl, htl⟩ := allIdx_head _ hpos
+  have hne : allIdx (padShape a.shape a.shape) ≠ [] := by rw [htl]; simp
+  obtain ⟨k, hk, -, -, hfirst⟩ := argmaxFirst_spec (xcorrCirc a a) _ hne
+  have hhead : (allIdx (padShape a.shape a.shape)).head hne = List.replicate a.shape.length 0 := by
+    simp only [htl, List.head_cons, hlen]
+  have hz := inLagBox_zeros a.shape a.shape rfl hpa hpa
+  have c0 : xcorrCirc a a (List.replicate a.shape.length 0) = xcorr a a (List.replicate a.shape.length 0) := by
+    have := circ_eq_lin a.shape a.shape a.get a.get _ hpa hpa hz
+    rw [← hlen, encode_zeros, hlen] at this
+    exact this
+  have hk0 : k = List.replicate a.shape.length 0 := by
+    rw [← hhead]
+    apply hfirst
+    intro k' hk'
+    rw [hhead, c0]
+    have hkb := (mem_allIdx _ _).mp hk'
+    obtain ⟨e1, e2⟩ := encode_decode_nd a.shape a.shape k' rfl hpa hpa hkb
+    have c2 := circ_eq_lin a.shape a.shape a.get a.get _ hpa hpa e2
+    rw [e1] at c2
+    have : xcorrCirc a a k' = xcorr a a (decode a.shape (padShape a.shape a.shape) k') := c2
+    rw [this]
+    exact xcorr_self_le a _ (inLagBox_len _ _ _ e2)
+  simp only [register, hk, hk0]
+  have := decode_zeros a.shape (padShape a.shape a.shape) hlen hpa
+  rw [hlen] at this
+  exact this
+
+
+section merge
+open Pew.Overlap
+
+/-- **register, then merge**: any number of windows of one scene, merged at their true offsets in
+`replace` (the default) or `mean` mode, reproduce the scene on the union of the windows and hold the
+fill elsewhere -/
+theorem merge_reproduces_scene (m : Mode) (hm : m ≠ .sum) (fill : V) (scene : Idx → Rat)
+    (ws : List (List Int × List Nat)) (p : Idx) :
+    mech m fill (ws.map fun w => window scene w.1 w.2) p
+      = sceneOnUnion scene fill (ws.map fun w => window scene w.1 w.2) p := by
+  rw [pixel_spec]
+  unfold spec sceneOnUnion
+  rw [contribs_windows]
+  generalize hL : (ws.map fun w => window scene w.1 w.2) = L
+  by_cases hany : L.any (fun a => a.inside p) = true
+  · have hpos : 0 < L.countP (fun a => a.inside p) := by
+      rw [List.countP_pos_iff]
+      simpa using hany
+    obtain ⟨n, hn⟩ : ∃ n, L.countP (fun a => a.inside p) = n + 1 := ⟨_, (Nat.succ_pred_eq_of_pos hpos).symm⟩
+    rw [hn, if_pos hany, List.replicate_succ]
+    cases m with
+    | replace =>
+      simp only
+      congr 1
+      have : (scene p :: List.replicate n (scene p)) = List.replicate (n + 1) (scene p) := rfl
+      simp only [this]
+      rw [List.getLast_replicate]
+    | sum => exact absurd rfl hm
+    | mean =>
+      simp only [List.sum_cons, List.sum_replicate, List.length_cons, List.length_replicate, nsmul_eq_mul]
+      congr 1
+      have : ((n + 1 : Nat) : Rat) ≠ 0 := by positivity
+      field_simp
+      push_cast
+      ring
+  · have hz : L.countP (fun a => a.inside p) = 0 := by
+      rw [List.countP_eq_zero]
+      simpa using hany
+    rw [hz, if_neg hany]
+    simp
+
+end merge
 
 end Pew.Register
